@@ -835,6 +835,17 @@ pub fn run(r: &Report, prop: &str) {
                         ..case.clone()
                     };
                     eval(l, prop, &crlf, false);
+                    // a long file (> 64 lines) ending in the document without a final line break:
+                    // regions on the very last line of a long file
+                    let long = DocCase {
+                        src: format!(
+                            "{}{}",
+                            (0..70).map(|i| format!("f{i}();\n")).collect::<String>(),
+                            case.src.trim_end_matches('\n')
+                        ),
+                        ..case.clone()
+                    };
+                    eval(l, prop, &long, false);
                 }
                 if prop == "C15" || prop == "C17" {
                     // the same source again, on the same thread, under configurations in which
